@@ -1,7 +1,7 @@
 SPECIFICATION Spec
 CONSTANTS
-  Kinds = {"plain", "params", "locals", "viewbind", "redirectwith", "withinput", "flashfull", "flashpartial", "flashtrunc", "bindquery", "bindauto", "resphdr", "baseurl", "error", "notallowed"}
-  Probes = {"plain", "params", "flashpartial", "flashshort", "bindbad"}
+  Kinds = {"plain", "params", "locals", "viewbind", "redirectwith", "withinput", "flashfull", "flashpartial", "flashtrunc", "bindquery", "bindauto", "resphdr", "baseurl", "error", "notallowed", "sendfilemaxage", "optparam"}
+  Probes = {"plain", "params", "flashpartial", "flashshort", "bindbad", "star", "optparam", "sendfile"}
   MaxHist = 2
   ResetFields = {"params", "locals", "viewbind", "flash", "bind", "redirect", "resphdr", "route", "baseuri"}
 INVARIANT NoForeignData
